@@ -483,24 +483,58 @@ func short(e []ecs.Entity) string {
 // CheckTargets compares, for every target ever used (alive or dead) and the zero target,
 // the relation-filter query result with the model's children.
 func (s *Sess) CheckTargets() {
-	rels := []int{}
-	for id, t := range s.M.Types {
-		if t.Rel && contains(s.Cfg.Used, id) {
-			rels = append(rels, id)
+	type key struct {
+		rel int
+		t   ecs.Entity
+	}
+	groups := map[key]map[ecs.Entity]bool{}
+	for e, me := range s.M.Alive {
+		if rel := s.M.RelOf(me); rel >= 0 {
+			k := key{rel, me.Target}
+			if groups[k] == nil {
+				groups[k] = map[ecs.Entity]bool{}
+			}
+			groups[k][e] = true
+			if !me.Target.IsZero() && !s.targets[me.Target] {
+				s.targets[me.Target] = true
+			}
 		}
 	}
-	ts := []ecs.Entity{{}}
-	for t := range s.targets {
-		ts = append(ts, t)
-	}
-	for _, rel := range rels {
-		for _, t := range ts {
-			spec := &FSpec{K: "rel", L: &FSpec{K: "all", IDs: []int{rel}}, T: entP(t)}
-			got := s.iterate(spec.Build(s.IDs, entOf))
-			if !s.checkResult("target", spec, got) {
-				return
+	for id, t := range s.M.Types {
+		if !t.Rel || !contains(s.Cfg.Used, id) {
+			continue
+		}
+		m := ecs.All(s.IDs[id])
+		check := func(t ecs.Entity) bool {
+			rf := ecs.NewRelationFilter(&m, t)
+			got := s.iterate(&rf)
+			want := groups[key{id, t}]
+			seen := map[ecs.Entity]bool{}
+			for _, e := range got {
+				if !want[e] || seen[e] {
+					s.fail("target.extra", "relation filter (component %d, target %v) selects %v which is not a child of that target (or twice)", id, t, e)
+					return false
+				}
+				seen[e] = true
+			}
+			if len(seen) != len(want) {
+				for e := range want {
+					if !seen[e] {
+						s.fail("target.miss", "relation filter (component %d, target %v) misses child %v", id, t, e)
+						return false
+					}
+				}
 			}
 			s.Cov.N["target_queries"]++
+			return true
+		}
+		if !check(ecs.Entity{}) {
+			return
+		}
+		for t := range s.targets {
+			if !check(t) {
+				return
+			}
 		}
 	}
 }
